@@ -99,6 +99,25 @@ def gen_post_family(rng):
     return {"n": n, "prog": prog, "meas": meas, "nm": nm}
 
 
+def gen_cond3_family(rng):
+    """analytic clause: two plain and one postselected measurement (in every order) feeding an ASYMMETRIC three-outcome
+    condition - exercises the reduction of postselected measurements inside measurement-value arithmetic."""
+    n = 3
+    prog = [("gate", {"g": "RY", "w": [w], "p": [rng.choice([3, 5, 11, 13])], "x": [], "m": [], "mods": []}) for w in (1, 2, 3)]
+    prog.append(("gate", devsim.random_gate(rng, n, M, ["g2", "r2"])))
+    order = [0, 0, rng.choice([1, 2])]
+    rng.shuffle(order)
+    for w, post in zip(rng.sample([1, 2, 3], 3), order):
+        prog.append(("measure", w, int(rng.random() < 0.3), post))
+        if rng.random() < 0.4:
+            prog.append(("gate", devsim.random_gate(rng, n, M, ["r1", "g1"])))
+    ci = rng.choice([8, 9, 10])
+    args = rng.sample([0, 1, 2], 3)
+    prog.append(("cond", ci, args, {"g": rng.choice(["RX", "RY"]), "w": [rng.randint(1, 3)], "p": [rng.choice([3, 5, 7])], "x": [], "m": [], "mods": []}))
+    pw = [rng.randint(1, 3) for _ in range(n)]
+    return {"n": n, "prog": prog, "meas": [("expval", pw), ("probs", [1, 2, 3])], "nm": 3}
+
+
 def to_tlc(p):
     ops, k = [], 0
     for st in p["prog"]:
@@ -187,7 +206,8 @@ def chi2_sf(x, k):
 
 def run(tier, seed):
     rng = random.Random(2100 + seed)
-    progs = [gen_program(rng, tier) for _ in range(220 if tier == "quick" else 3000)]
+    progs = [gen_program(rng, tier) for _ in range(190 if tier == "quick" else 3000)]
+    progs += [gen_cond3_family(rng) for _ in range(30 if tier == "quick" else 300)]
     res, stats = tapeeval.evaluate("C21", [to_tlc(p) for p in progs], M)
     viol, n_cmp, n_exec, samples, nontriv = [], 0, 0, [], set()
     branch_hist = {}
